@@ -81,8 +81,6 @@ def run(tier, seed, replay):
         v.violation("tui:spec:" + inv, "Tui.tla violates %s" % inv, {"tlc": r.out[r.out.find("Error:"):][:3000]})
     beh = vlib.tlc_replay_lines(r.out)
     # (2) S->I: type every behaviour into the real session, compare the editor after the last key, no panic anywhere
-    if tier == "thorough" and len(beh) > 60000:
-        beh = [b for b in beh if len(b["keys"]) < K] + rng.sample([b for b in beh if len(b["keys"]) == K], 50000)
     # behaviours with the same key sequence are alternatives (BackTab / completion are nondeterministic in the specification)
     groups = {}
     for b in beh:
@@ -90,6 +88,9 @@ def run(tier, seed, replay):
     script = []
     ends = []
     glist = list(groups.values())
+    if tier == "thorough" and len(glist) > 60000:       # sample whole groups: alternatives of one key sequence stay together
+        short = [g for g in glist if len(g[0]["keys"]) < K]
+        glist = short + rng.sample([g for g in glist if len(g[0]["keys"]) == K], 50000)
     for g in glist:
         script.append("new")
         for k in g[0]["keys"]:
